@@ -209,3 +209,102 @@ pub fn explore(rep: &mut Report, tier: &str, _prop: &str, only: Option<Vec<usize
     }
     rep.counters.insert("token_sequence_max_length_fully_explored".into(), deepest as u64);
 }
+
+
+/// Well-formed modules written over the token alphabet; every single-token mutation of each
+/// (deletion, insertion of any alphabet token, replacement by any alphabet token) is evaluated
+/// against the reference recogniser. This reaches constructs that sequences of length <= L cannot.
+pub const TEMPLATES: &[&str] = &[
+    "# ! [ a ] use a :: a ; ///d\n type a { # [ a ( 1 ) ] pub a : * const a , _ : unknown < 1 > }",
+    "pub enum a : a { # [ a ] a = 1 , a , a = -1 }",
+    "impl a { # [ a ( 0x10 ) ] pub fn a ( & self , a : [ a ; 1 ] ) -> * mut a ; fn a ( & mut self ) }",
+    "# [ a ( 1 ) , a ( 1 ) ] extern type a < a > ;",
+    "# [ a ( 0x10 ) ] pub extern a : * const a ;",
+    "backend a prologue \"s\" ; backend a epilogue \"s\" ;",
+    "backend a { prologue \"s\" ; epilogue \"s\" ; }",
+    "type a { vftable { pub fn a ( & self ) ; fn a ( ) -> a } , a : a }",
+    "type a ; pub type a { }",
+    "# [ a = \"s\" , a = 1 , a = a ] type a { ///d\n a : a }",
+    "use a :: a < a > :: a ; use a ;",
+    "type a { # [ a ] vftable { # [ a ( 1 ) ] fn a ( & self , a : * const a ) -> [ a ; 0x10 ] ; } , # [ a ( 1 ) ] _ : [ [ a ; 1 ] ; 1 ] , }",
+    "enum a : unknown < 1 > { } # [ a ( ) ] enum a : * mut a { a = a , a = \"s\" , }",
+    "# ! [ a = \"s\" ] # ! [ a ( a , 1 , \"s\" ) ] ///d\n ///d\n pub type a { pub a : a }",
+    "impl a { } # [ a ] impl a { pub fn a ( a : a , a : a ) ; }",
+];
+
+pub fn template_tokens(t: &str) -> Vec<usize> {
+    let mut out = vec![];
+    let mut rest = t;
+    loop {
+        rest = rest.trim_start_matches(' ');
+        if rest.is_empty() {
+            break;
+        }
+        // the doc-comment token contains a newline and is written `///d\n`
+        let (tok, len) = if rest.starts_with("///d\n") { ("///d\n", 5) } else { let e = rest.find(' ').unwrap_or(rest.len()); (&rest[..e], e) };
+        out.push(ALPHABET.iter().position(|a| *a == tok).unwrap_or_else(|| panic!("template token {tok:?} is not in the alphabet")));
+        rest = &rest[len..];
+    }
+    out
+}
+
+/// All single-token mutants of a sequence.
+pub fn mutants(seq: &[usize]) -> Vec<Vec<usize>> {
+    let k = ALPHABET.len();
+    let mut out = vec![seq.to_vec()];
+    for i in 0..seq.len() {
+        let mut d = seq.to_vec();
+        d.remove(i);
+        out.push(d);
+        for t in 0..k {
+            if t != seq[i] {
+                let mut r = seq.to_vec();
+                r[i] = t;
+                out.push(r);
+            }
+        }
+    }
+    for i in 0..=seq.len() {
+        for t in 0..k {
+            let mut ins = seq.to_vec();
+            ins.insert(i, t);
+            out.push(ins);
+        }
+    }
+    out
+}
+
+/// Evaluates every template and every single-token mutant: parser vs. recogniser, round trip,
+/// error positions.
+pub fn explore_mutants(rep: &mut Report) {
+    for (ti, t) in TEMPLATES.iter().enumerate() {
+        let seq = template_tokens(t);
+        match crate::checks::recog::recognise(&seq) {
+            Some(true) => {}
+            other => rep.machinery(format!("template {ti} is not accepted by the reference recogniser ({other:?}): {t}")),
+        }
+        let ms = mutants(&seq);
+        let outs = util::par_map(ms.len(), |i, _| (eval(&ms[i]), crate::checks::recog::recognise(&ms[i])));
+        for (i, (r, want)) in outs.into_iter().enumerate() {
+            let (Some(r), Some(want)) = (r, want) else {
+                rep.count("mutants_unlexable_(unbalanced_closer)", 1);
+                continue;
+            };
+            rep.states += 1;
+            rep.transitions += 1;
+            rep.traces += 1;
+            rep.evaluations += 1;
+            rep.count(if r.accepted { "mutants_accepted" } else { "mutants_rejected" }, 1);
+            if i == 0 && !r.accepted {
+                rep.violation(Violation { key: "template_rejected".into(), features: vec![], input: pipe::Input::single(r.text.clone()), ps: 0, detail: format!("a well-formed module is rejected: {:?}", r.error), locator: json!({"space": "tokens", "tokens": ms[i]}) });
+            }
+            if let Some((key, detail)) = r.violation {
+                rep.violation(Violation { key, features: vec!["mutant".into()], input: pipe::Input::single(r.text.clone()), ps: 0, detail, locator: json!({"space": "tokens", "tokens": ms[i]}) });
+            }
+            if want != r.accepted {
+                let key = if r.accepted { "parser_accepts_what_the_grammar_rejects" } else { "parser_rejects_what_the_grammar_accepts" };
+                rep.violation(Violation { key: key.into(), features: vec!["mutant".into()], input: pipe::Input::single(r.text.clone()), ps: 0, detail: format!("reference recogniser: {want}; parser: {}; error: {:?}", r.accepted, r.error), locator: json!({"space": "tokens", "tokens": ms[i]}) });
+            }
+        }
+    }
+}
